@@ -99,7 +99,7 @@ Theorem C02_no_assert_fires_in_space :
 Proof.
   intros predict n w d kinds eps nspec ops Hw Hd Hcap Hn Hlen Hpl p0.
   destruct (run_in_space predict ops p0 _ (game0 w) w d (QS_start n w d kinds eps nspec Hw Hd Hcap Hn Hlen Hpl)
-              (JI_start n w d kinds eps nspec ltac:(lia))) as [E|(p & outs & gs & g & E1 & E2 & Ex & _ & HJ)].
+              (JI_start n w d kinds eps nspec ltac:(lia)) Hw) as [E|(p & outs & gs & g & E1 & E2 & Ex & _ & HJ)].
   - left. exact E.
   - right. exists p, outs, g. split; [exact E1|]. split; [exact E2|]. split; [exact Ex|apply (ji_frame _ _ _ HJ)].
 Qed.
